@@ -29,6 +29,9 @@ def run(v, tier):
                     for j in range(i + 1, ar):
                         w = list(t); w[i], w[j] = w[j], w[i]; tuples.append(w)
         reqs.append({'cmd': 'render', 'label': label, 'argtuples': tuples})
+    # self-nesting: N(.., N(a, b), c) against N(.., a, N(b, c)) - an unbracketed template prints both alike
+    for r in reqs:
+        r['selfnest'] = [pi2v.SYM(4), pi2v.SYM(5), pi2v.EV(1)]
     res = py_run(reqs, script='genharness.py')
     cases = [dict(r, fam='notation') for r in res]
     v.cov['notations'] = len(cases)
